@@ -47,6 +47,7 @@ type RunResult struct {
 	Leaked         []string
 	Requests       []ReqLog
 	SecondValue    bool // a second value could be received from Wait()
+	CloseHung      bool // a Close() call did not return within 5 s
 	Idle           bool // closed by the harness because nothing happened for RunOpts.MaxIdle
 	Stopped        bool // the harness stopped the run through RunOpts.Stop
 	Wall           time.Duration
@@ -139,8 +140,20 @@ func RunClient(o RunOpts) *RunResult {
 			if n < 1 {
 				n = 1
 			}
-			for i := 0; i < n; i++ {
-				c.Close()
+			done := make(chan struct{})
+			go func() {
+				defer close(done)
+				for i := 0; i < n; i++ {
+					c.Close()
+				}
+			}()
+			select {
+			case <-done:
+			case <-time.After(5 * time.Second):
+				// Close blocks (e.g. it waits for the very callback it was called from)
+				mu.Lock()
+				res.CloseHung = true
+				mu.Unlock()
 			}
 		})
 	}
